@@ -60,6 +60,22 @@ void check_buffer(Ctx &c, const std::string &x, size_t align, const char *ctx) {
     uint64_t g = ref::fnv1_64((const uint8_t *)x.data(), n);
     if (r.f64 != g) c.fail(FUNC, "hash:fnv1_64", "qhashfnv1_64 of %zu bytes (%s) = %016llx, FNV-1 = %016llx", n, hexs(x, 12).c_str(), (unsigned long long)r.f64, (unsigned long long)g);
 }
+// the 16-byte result buffer lies inside the bytes being hashed (in-place "d = H(d)", or a record
+// whose digest field is part of the hashed span): the digest is still that of the bytes passed in
+void check_inplace(Ctx &c, const std::string &x, size_t off) {
+    size_t n = x.size();
+    if (n < 16) return;
+    if (off > n - 16) off = n - 16;
+    off &= ~(size_t)15;                                     // keep the result buffer 16-aligned (new[] blocks are)
+    uint8_t e[16];
+    for (int which = 0; which < 2; which++) {
+        uint8_t *blk = new uint8_t[n]; struct D { uint8_t *p; ~D() { delete[] p; } } d{blk};
+        memcpy(blk, x.data(), n);
+        bool ok = which == 0 ? qhashmd5(blk, n, blk + off) : qhashmurmur3_128(blk, n, blk + off);
+        if (which == 0) ref::md5((const uint8_t *)x.data(), n, e); else ref::murmur3_128((const uint8_t *)x.data(), n, 0, e);
+        if (!ok || memcmp(blk + off, e, 16) != 0) c.fail(FUNC, which == 0 ? "hash:md5-inplace" : "hash:murmur3_128-inplace", "%s of %zu bytes with the result written into the input at offset %zu = %s, the digest of the bytes passed in is %s", which == 0 ? "qhashmd5" : "qhashmurmur3_128", n, off, ref::hex16(blk + off).c_str(), ref::hex16(e).c_str());
+    }
+}
 // same bytes embedded in a larger buffer at another alignment, followed by other bytes
 void check_embedded(Ctx &c, const std::string &x, size_t align, int follow, uint32_t seed) {
     size_t n = x.size();
@@ -207,6 +223,7 @@ void run_case(Src &s, Ctx &c) {
     c.op("hash %zu bytes, class %d, alignment %zu: %s", n, cls, align, hexs(x, 12).c_str());
     check_buffer(c, x, align, "buffer ends at the end of its heap block");
     check_embedded(c, x, (size_t)s.range(0, 15), (int)s.range(0, 2), (uint32_t)s.range(0, 255));
+    if (n >= 16) { size_t off = s.boolean() ? 0 : (size_t)s.range(0, (long)n - 16); check_inplace(c, x, off); c.tag("result_buffer_inside_the_input"); }
     c.check_san("hash");
     bool hasnul = x.find('\0') != std::string::npos;
     c.nontrivial = (n % 16 != 0) || hasnul;
@@ -227,6 +244,7 @@ bool vf_enumerate(Ctx &c, EnumStats &st) {
                 c.trace = strf("sweep: %zu bytes, class %d, alignment %zu: %s", n, cls, al, hexs(x, 12).c_str());
                 check_buffer(c, x, al, "sweep");
                 if ((n & 7) == 0) check_embedded(c, x, (al + 5) & 15, cls % 3, (uint32_t)n);
+                if (al == 0 && n >= 16) check_inplace(c, x, (n * 7) % (n - 15));
                 st.evaluations++; st.nontrivial++;
                 if (st.samples.size() < 3 && idx % 7919 == 11) st.samples.push_back(c.trace);
             }
